@@ -81,6 +81,11 @@ static const Hand HAND[] = {
     {"lea rax, [rbx+0x10000000000000000]", CF_EITHER},
     {"add rcx, 0x100000000000000000000", CF_EITHER},
     {"mov rdx, -99999999999999999999999", CF_EITHER},
+    // bytes outside printable ASCII at the end of a line: accepted or rejected, but the same way every time
+    {"mov rax, 0x7fffffff\x7f", CF_EITHER},
+    {"nop\x7f", CF_EITHER},
+    {"add rcx, rdx \x7f", CF_EITHER},
+    {"mov rax, 0x000000007fffffff\x01", CF_EITHER},
     // option-sensitive probes of the documentation
     {"lea r15, [rax+rsp]", CF_OPTSENS},
     {"lea r15, [2*rax]", CF_OPTSENS},
